@@ -933,8 +933,31 @@ bool Runner<T>::step(const Op& op0, std::size_t index)
                 pos = pos % (sz + 3);
             expect_raise = pos >= sz;
             const FV& cf = *slot[a];
-            int v1 = slot[a]->at(pos).value;
-            int v2 = cf.at(pos).value;
+            // the two overloads are checked independently: one raising must not hide the other
+            bool raised_nc = false, raised_c = false;
+            int v1 = 0, v2 = 0;
+            try
+            {
+                v1 = slot[a]->at(pos).value;
+            }
+            catch (const std::exception&)
+            {
+                raised_nc = true;
+            }
+            try
+            {
+                v2 = cf.at(pos).value;
+            }
+            catch (const std::exception&)
+            {
+                raised_c = true;
+            }
+            if (raised_nc != raised_c)
+                fail(std::string("at(") + std::to_string(pos) + ") with size " + std::to_string(sz) +
+                     ": the non-const overload " + (raised_nc ? "raised" : "returned") + " but the const overload " +
+                     (raised_c ? "raised" : "returned " + std::to_string(v2)) + " (" + when + ")");
+            if (raised_nc)
+                throw std::out_of_range("at raised");
             have_value = true;
             got_value = v1;
             if (v1 != v2)
